@@ -47,6 +47,18 @@ Theorem C13_fsign_nonzero : forall eps1 x, 0 < eps1 -> fsign ROps eps1 x <> 0.
 Proof. exact fsign_nonzero. Qed.
 Print Assumptions C13_fsign_nonzero.
 
+(* ... its magnitude is at least the threshold (tiny non-zero differences are clamped as well), it keeps the sign of its argument,
+   and therefore every gradient ratio a / _fsign(x) is bounded by |a| / eps1: no overflow next to differences of order one *)
+Theorem C13_fsign_lower_bound : forall eps1 x, 0 < eps1 -> eps1 <= Rabs (fsign ROps eps1 x).
+Proof. exact fsign_lower_bound. Qed.
+Print Assumptions C13_fsign_lower_bound.
+Theorem C13_fsign_same_sign : forall eps1 x, 0 < eps1 -> 0 <= x * fsign ROps eps1 x.
+Proof. exact fsign_same_sign. Qed.
+Print Assumptions C13_fsign_same_sign.
+Theorem C13_fsign_ratio_bounded : forall eps1 a x, 0 < eps1 -> Rabs (a / fsign ROps eps1 x) <= Rabs a / eps1.
+Proof. exact fsign_ratio_bounded. Qed.
+Print Assumptions C13_fsign_ratio_bounded.
+
 (* non-vacuity: the hypotheses are met by the defaults the code uses *)
 Example C13_defaults_positive : 0 < eps_default ROps /\ 0 < eps1_default ROps.
 Proof.
